@@ -184,6 +184,132 @@ theorem danceProg_run (other : Nat) : ∀ (ops : List LocaleOp) (rets : List Nat
       simp only [danceProg, Prog.run, glibc_query, glibc_set]
       rw [danceProg_run other ops]; rfl
 
+/-! ### the locale DISCIPLINE of an arbitrary call (lifts `danceProg_run` to every program)
+
+A call of the parser family does much more than call `setlocale`; what matters for the locale is only the sequence of
+its `setlocale` calls.  `Prog.Follows other Ps p cur rets`: every `setlocale` call of `p` is the next call of one of the
+extracted protocols `Ps` (`cur` = calls still due in the protocol run in progress, `rets` = values returned in that run;
+`cur = []` = no run in progress), a call returns only between runs, and runs may repeat (a `_CP` function parses zero,
+one or several formulas).  The arguments are the ones the protocol prescribes: NULL, a literal, or a value returned
+earlier in the same run. -/
+
+/-- the argument of the external call `setlocale` that the protocol step prescribes (0 = NULL, n+1 = name n) -/
+def LocaleOp.arg (other : Nat) (rets : List Nat) : LocaleOp → Nat
+  | .query _ => 0
+  | .setLit _ n => n + 1
+  | .setRet _ k => nthD other rets k + 1
+  | .setOther _ => other + 1
+
+def Prog.Follows (other : Nat) (Ps : List (List LocaleOp)) : Prog → List LocaleOp → List Nat → Prop
+  | .ret _, cur, _ => cur = []
+  | .read _ k, cur, rets => ∀ v, (k v).Follows other Ps cur rets
+  | .write _ _ k, cur, rets => k.Follows other Ps cur rets
+  | .ext f a k, cur, rets =>
+      (f = SETLOCALE →
+        match cur with
+        | op :: cur' => a = op.arg other rets ∧ ∀ v, (k v).Follows other Ps cur' (rets ++ [v])
+        | [] => ∃ op cur', (op :: cur') ∈ Ps ∧ a = op.arg other [] ∧ ∀ v, (k v).Follows other Ps cur' [v])
+      ∧ (f ≠ SETLOCALE → ∀ v, (k v).Follows other Ps cur rets)
+
+theorem execOps_append (other : Nat) (a b : List LocaleOp) (s : LState) :
+    execOps other (a ++ b) s = execOps other b (execOps other a s) := by
+  simp [execOps, List.foldl_append]
+
+/-- one protocol step against glibc's `setlocale`: the model's `exec` is what the library call does -/
+theorem LocaleOp.exec_glibc (other : Nat) (op : LocaleOp) (rets : List Nat) (sh : Shared) :
+    op.exec other ⟨sh.locale, rets⟩ =
+      ⟨(glibcExt.run SETLOCALE (op.arg other rets) sh).2.locale, rets ++ [(glibcExt.run SETLOCALE (op.arg other rets) sh).1]⟩ := by
+  cases op <;> simp [LocaleOp.exec, LocaleOp.arg, glibc_query, glibc_set]
+
+/-- the protocol program follows its own protocol: from the middle of a run … -/
+theorem danceProg_follows (other : Nat) (Ps : List (List LocaleOp)) :
+    ∀ (ops : List LocaleOp) (rets : List Nat), (danceProg other ops rets).Follows other Ps ops rets
+  | [], _ => rfl
+  | .query _ :: ops, _ => ⟨fun _ => ⟨rfl, fun _ => danceProg_follows other Ps ops _⟩, fun h => absurd rfl h⟩
+  | .setLit _ _ :: ops, _ => ⟨fun _ => ⟨rfl, fun _ => danceProg_follows other Ps ops _⟩, fun h => absurd rfl h⟩
+  | .setRet _ _ :: ops, _ => ⟨fun _ => ⟨rfl, fun _ => danceProg_follows other Ps ops _⟩, fun h => absurd rfl h⟩
+  | .setOther _ :: ops, _ => ⟨fun _ => ⟨rfl, fun _ => danceProg_follows other Ps ops _⟩, fun h => absurd rfl h⟩
+
+/-- … and from outside a run, when the protocol is one of `Ps` -/
+theorem danceProg_follows_idle (other : Nat) (Ps : List (List LocaleOp)) (ops : List LocaleOp) (h : ops ∈ Ps) :
+    (danceProg other ops []).Follows other Ps [] [] := by
+  cases ops with
+  | nil => rfl
+  | cons op ops =>
+    cases op <;>
+      exact ⟨fun _ => ⟨_, ops, h, rfl, fun _ => danceProg_follows other Ps ops _⟩, fun hn => absurd rfl hn⟩
+
+/-- LOCALE DISCIPLINE ⇒ LOCALE RESTORED.  `E`: `setlocale` as glibc implements it, every other admitted function leaves
+the locale alone.  A call that writes no shared object itself (read-only footprint) and follows protocols that all restore
+the locale they find leaves the process locale exactly as it found it — whatever else it does. -/
+theorem Prog.follows_locale {E : Ext} {o other : Nat} {X : Nat → Prop} {Ps : List (List LocaleOp)}
+    (hset : ∀ a sh, E.run SETLOCALE a sh = glibcExt.run SETLOCALE a sh)
+    (hE : ∀ f, X f → f ≠ SETLOCALE → ∀ a sh, (E.run f a sh).2.locale = sh.locale)
+    (hPs : ∀ P ∈ Ps, ∀ l, execLocale other P l = l) (l0 : Nat) :
+    ∀ (p : Prog) (cur : List LocaleOp) (rets : List Nat) (s : State),
+      p.Conf o (fun _ => False) X → p.Follows other Ps cur rets →
+      ((cur = [] ∧ s.sh.locale = l0) ∨
+        ∃ P ∈ Ps, ∃ done, done ++ cur = P ∧ execOps other done ⟨l0, []⟩ = ⟨s.sh.locale, rets⟩) →
+      (p.run E s).2.sh.locale = l0
+  | .ret _, cur, rets, s, _, hf, hinv => by
+      simp only [Prog.run]
+      have hcur : cur = [] := hf
+      rcases hinv with ⟨_, h⟩ | ⟨P, hP, done, hd, he⟩
+      · exact h
+      · subst hcur
+        simp only [List.append_nil] at hd; subst hd
+        have := hPs _ hP l0
+        simp only [execLocale, he] at this
+        exact this
+  | .read x k, cur, rets, s, hc, hf, hinv => by
+      simp only [Prog.run]
+      exact Prog.follows_locale hset hE hPs l0 (k (s.get x)) cur rets s (hc.2 _) (hf _) hinv
+  | .write x v k, cur, rets, s, hc, hf, hinv => by
+      simp only [Prog.run]
+      have hsh : (s.set x v).sh = s.sh := by
+        rcases hc.1 with ⟨_, f⟩ | ⟨j, rfl⟩
+        · exact f.elim
+        · rfl
+      refine Prog.follows_locale hset hE hPs l0 k cur rets (s.set x v) hc.2 hf ?_
+      rw [hsh]; exact hinv
+  | .ext f a k, cur, rets, s, hc, hf, hinv => by
+      simp only [Prog.run]
+      by_cases hfs : f = SETLOCALE
+      · subst hfs
+        have hf1 := hf.1 rfl
+        rw [hset]
+        -- the locale the run in progress started from is l0, and (done, cur) describe where it stands
+        cases cur with
+        | cons op cur' =>
+          obtain ⟨ha, hk⟩ := hf1
+          rcases hinv with ⟨h, _⟩ | ⟨P, hP, done, hd, he⟩
+          · cases h
+          · subst ha
+            refine Prog.follows_locale hset hE hPs l0 _ cur' _ _ (hc.2 _) (hk _) (Or.inr ⟨P, hP, done ++ [op], by simpa using hd, ?_⟩)
+            rw [execOps_append, he]
+            simp only [execOps, List.foldl_cons, List.foldl_nil]
+            exact LocaleOp.exec_glibc other op rets s.sh
+        | nil =>
+          obtain ⟨op, cur', hP, ha, hk⟩ := hf1
+          have hl : s.sh.locale = l0 := by
+            rcases hinv with ⟨_, h⟩ | ⟨P, hP', done, hd, he⟩
+            · exact h
+            · simp only [List.append_nil] at hd; subst hd
+              have := hPs _ hP' l0
+              simp only [execLocale, he] at this
+              exact this
+          subst ha
+          refine Prog.follows_locale hset hE hPs l0 _ cur' _ _ (hc.2 _) (hk _) (Or.inr ⟨op :: cur', hP, [op], rfl, ?_⟩)
+          simp only [execOps, List.foldl_cons, List.foldl_nil]
+          rw [← hl]
+          have := LocaleOp.exec_glibc other op [] s.sh
+          simpa using this
+      · have hk := hf.2 hfs
+        refine Prog.follows_locale hset hE hPs l0 _ cur rets _ (hc.2 _) (hk _) ?_
+        have hl : (E.run f a s.sh).2.locale = s.sh.locale := hE f hc.1 hfs a s.sh
+        simp only [hl]
+        exact hinv
+
 /-- the query `setlocale(LC_NUMERIC, NULL)` as a call: a legitimate observer of the process state -/
 def localeQuery : Prog := .ext SETLOCALE 0 .ret
 
